@@ -12,7 +12,7 @@ import cifdesc
 
 FAMILY = "storeval"
 HARNESS = {"source": "x_storeval.c", "exclude_objs": ["value"], "extra_sources": ["x_gg.h", "cifio.h"],
-           "cflags": ["-DVERIF_CASE_SECONDS=10"], "leak_clean": True}
+           "cflags": ["-DVERIF_CASE_SECONDS=2"], "leak_clean": True}
 RULE = ("random values (all kinds; nested lists/tables to depth 4 quick / 8 thorough; strings 0-600 units of well-formed text incl. "
         "supplementary characters; numbers in every accepted spelling incl. huge and tiny exponents; serialised sizes around "
         "512 * 1.5^k) x 5 storing routes x 3 ways of changing the caller's object afterwards; non-trivial = a list, table or number")
@@ -69,7 +69,7 @@ def for_parse(tree):
 def generate(seed, tier):
     r = rng(seed, FAMILY)
     quick = tier == "quick"
-    for i in range(2500 if quick else 25000):
+    for i in range(1500 if quick else 25000):
         mode = r.random()
         if mode < 0.3:
             t = leaf(r)
